@@ -1,5 +1,6 @@
 //! C09: cluster update on synthetic random operator strings (besides the equilibrium strings of `steps`).
 use crate::coqfmt as cq;
+use crate::ising::*;
 use crate::model::*;
 use crate::tape::{SplitMix64, TapeRng};
 use crate::Args;
@@ -129,10 +130,60 @@ pub fn run(args: &Args) -> serde_json::Value {
             }
         }
     }
+    // ---- clusters containing a longitudinal-field operator must NEVER flip: whatever words the RNG hands out.
+    // Equilibrated Ising samplers with h != 0, then single_cluster_step driven by the extreme tapes
+    // (all words 0: every uniform draw is exactly 0.0; all words MAX): field operators must be bit-identical,
+    // every stored operator legal, the product of matrix elements unchanged.
+    let n_ext = if args.thorough { 400 } else { 60 };
+    let mut n_ext_field_ops = 0usize;
+    for _ in 0..n_ext {
+        let mut spec = random_ising(&mut rng, 4, true);
+        if spec.h == 0.0 {
+            spec.h = if rng.chance(1, 2) { 0.5 } else { -0.75 };
+        }
+        let mut g = spec.build(TapeRng::new(rng.next()));
+        g.rng_logging_off();
+        for _ in 0..(3 + rng.below(12)) {
+            g.timestep([0.5, 1.0, 2.0][rng.below(3) as usize]);
+        }
+        for word in [0u64, u64::MAX] {
+            let mut v = serde_json::to_value(&g).unwrap();
+            v["rng"]["script"] = serde_json::json!(vec![word; 4096]);
+            v["rng"]["pos"] = serde_json::json!(0);
+            let mut g2: IG = serde_json::from_value(v).unwrap();
+            let (sl0, st0, _) = snapshot_ising(&g2);
+            let r = catch_unwind(AssertUnwindSafe(|| g2.single_cluster_step()));
+            let ctx = json!({"edges": spec.edges, "gamma": spec.gamma, "h": spec.h, "every_rng_word": word, "state": st0,
+                "string": sl0.iter().map(|o| o.as_ref().map(|o| json!([o.vars, o.bond, o.ins, o.outs]))).collect::<Vec<_>>()});
+            if r.is_err() {
+                oracle_failures.push(json!({"what": "single_cluster_step panicked on an extreme tape", "context": ctx}));
+                continue;
+            }
+            let (sl1, st1, _) = snapshot_ising(&g2);
+            let nfield0 = spec.edges.len() + spec.nvars;
+            for (p, (a, b)) in sl0.iter().zip(sl1.iter()).enumerate() {
+                if let (Some(a), Some(b)) = (a, b) {
+                    if a.bond >= nfield0 {
+                        n_ext_field_ops += 1;
+                        if a != b {
+                            oracle_failures.push(json!({"what": format!("a cluster containing the longitudinal-field operator at slot {} was flipped ({:?} -> {:?})", p, a.ins, b.ins), "context": ctx}));
+                        }
+                    }
+                }
+            }
+            let w = |s: &Slots| s.iter().flatten().map(|o| spec.weight(o.bond, &o.ins, &o.outs)).product::<f64>();
+            if (w(&sl0) - w(&sl1)).abs() > 1e-9 * w(&sl0).abs() {
+                oracle_failures.push(json!({"what": format!("product of matrix elements changed {} -> {} in a cluster update", w(&sl0), w(&sl1)), "context": ctx}));
+            }
+            if !naive_wf(&st1, &sl1) {
+                oracle_failures.push(json!({"what": "world line inconsistent after cluster update on an extreme tape", "context": ctx}));
+            }
+        }
+    }
     oracle_failures.truncate(40);
     let files = crate::write_shards(&args.out, "C09", "C09", &coq, if args.thorough { 600 } else { 100 });
     json!({"files": files, "evaluations": coq.len(), "distinct_nontrivial": distinct.len(), "cluster_count_histogram": hist_clusters,
-        "strings_without_constant_op": n_no_const, "strings_with_operator_free_spins": n_free_spins,
+        "extreme_tape_cluster_steps": 2 * n_ext, "field_operators_watched_on_extreme_tapes": n_ext_field_ops, "strings_without_constant_op": n_no_const, "strings_with_operator_free_spins": n_free_spins,
         "oracle_failures": oracle_failures, "samples": samples,
-        "rule": "synthetic random valid operator strings (1-5 spins, up to 14 (24) slots, 0/1/many constant single-site ops per world line, op-free spins, ops of arity 1-3, several bonds on the same variables) over Ising-symmetric tables; flip_each_cluster_ising_symmetry_rng replayed on the raw tape; equilibrium strings are covered by the `steps` correspondence"})
+        "rule": "synthetic random valid operator strings (1-5 spins, up to 14 (24) slots, 0/1/many constant single-site ops per world line, op-free spins, ops of arity 1-3, several bonds on the same variables) over Ising-symmetric tables; flip_each_cluster_ising_symmetry_rng replayed on the raw tape; equilibrium strings are covered by the `steps` correspondence; equilibrated samplers with a field are additionally driven through single_cluster_step with all-zero and all-ones RNG words (field operators must never change)"})
 }
